@@ -88,7 +88,7 @@ def remote_cases(tier, rng):
         for rel in ("link", "monitor", "mixed"):
             E(end=end, rel=rel, post=rng.choice([2, 8]), subs=2)
     E(size=5000, chunk=7, post=20); E(size=70000, post=5, pool=3); E(post=300, subs=3, pool=3, chunk=rng.choice([0, 100]))
-    for _ in range(4 if tier == "quick" else 60):
+    for _ in range(4 if tier == "quick" else 300):
         E(buffer=rng.choice([0, 1, 2, 5, 10]), pre=rng.randint(0, 12), post=rng.randint(0, 40), subs=rng.randint(1, 4), rel=rng.choice(["link", "monitor", "mixed"]),
           pool=rng.choice([1, 2, 3, 4]), chunk=rng.choice([0, 0, 3, 64, 1460]), size=rng.choice([10, 40, 300, 5000]), end=rng.choice(["", "", "unregister", "kill"]))
     return ev
